@@ -219,6 +219,9 @@ m('M135-bn-sponge-short-input-shortcut', ['C10'], (PB, "func (c *BN254Chip) Hash
 m('M136-decoder-skips-round-without-steps', ['C19'], (VD, "\t\tnumEvalProofs := len(openingProofRaw.QueryRoundProofs[i].InitialTreesProof.EvalsProofs)\n", "\t\tnumEvalProofs := len(openingProofRaw.QueryRoundProofs[i].InitialTreesProof.EvalsProofs)\n\t\tif numEvalProofs == 0 || len(openingProofRaw.QueryRoundProofs[i].Steps) == 0 {\n\t\t\tcontinue\n\t\t}\n"))
 m('M137-permutation-closing-link-inside-loop', ['C16'], (P, "\tproductAccs = append(productAccs, openings.PlonkZsNext[challengeNum])\n", "\tif numPartProds > 0 {\n\t\tproductAccs = append(productAccs, openings.PlonkZsNext[challengeNum])\n\t} else {\n\t\tproductAccs = append(productAccs, openings.PlonkZs[challengeNum])\n\t}\n"))
 
+m('M138-gate-reverses-wires-in-place', ['C15'], (G+'exponentiation_gate.go', "\tvar powerBits []gl.QuadraticExtensionVariable\n\tfor i := uint64(0); i < g.numPowerBits; i++ {\n\t\tpowerBits = append(powerBits, vars.localWires[g.wirePowerBit(i)])\n\t}\n", "\tpowerBits := vars.localWires[g.wirePowerBit(0) : g.wirePowerBit(0)+g.numPowerBits]\n\tfor lo, hi := 0, len(powerBits)-1; lo < hi; lo, hi = lo+1, hi-1 {\n\t\tpowerBits[lo], powerBits[hi] = powerBits[hi], powerBits[lo]\n\t}\n\tfor lo, hi := 0, len(powerBits)-1; lo < hi; lo, hi = lo+1, hi-1 {\n\t\tpowerBits[lo], powerBits[hi] = powerBits[hi], powerBits[lo]\n\t}\n"))
+m('M139-reducewithpowers-pads-callers-view', ['C08', 'C16'], (Q, "\tsum := ZeroExtension()\n\tfor i := len(terms) - 1; i >= 0; i-- {", "\tsum := ZeroExtension()\n\tif len(terms)%2 == 1 {\n\t\tterms = append(terms, ZeroExtension())\n\t}\n\tfor i := len(terms) - 1; i >= 0; i-- {"))
+
 # ---- behaviour-preserving refactors: must stay silent on every property
 ALL = ['C01', 'C02', 'C03', 'C04', 'C05', 'C06', 'C07', 'C08', 'C09', 'C10', 'C11', 'C12', 'C13', 'C14', 'C15', 'C16', 'C17', 'C18', 'C19', 'C20']
 m('R02-inline-assertLeadingZeros', [], (F, "\tf.assertLeadingZeros(friChallenges.FriPowResponse, f.friParams.Config)\n", "\tf.gl.RangeCheckWithMaxBits(friChallenges.FriPowResponse, 64-f.friParams.Config.ProofOfWorkBits)\n"))
@@ -288,6 +291,9 @@ m('R65-merkle-level-helper', [], (F, "\t\tstate := f.poseidonBN254Chip.Poseidon(
 
 m('R66-fri-fold-through-local', [], (F, "\t\toldEval = f.computeEvaluation(\n\t\t\tsubgroupX,\n\t\t\txIndexWithinCosetBits,\n\t\t\tarityBits,\n\t\t\tevals,\n\t\t\tchallenges.FriBetas[i],\n\t\t)\n", "\t\tfolded := f.computeEvaluation(\n\t\t\tsubgroupX,\n\t\t\txIndexWithinCosetBits,\n\t\t\tarityBits,\n\t\t\tevals,\n\t\t\tchallenges.FriBetas[i],\n\t\t)\n\t\toldEval = folded\n"))
 m('R67-fri-final-compare-extension-helper', [], (F, "\tf.gl.AssertIsEqual(oldEval[0], finalPolyEval[0])\n\tf.gl.AssertIsEqual(oldEval[1], finalPolyEval[1])\n", "\tf.gl.AssertIsEqualExtension(oldEval, finalPolyEval)\n"))
+
+m('R68-gl-sponge-cursor-form', [], (PG, "\tfor i := 0; i < len(input); i += SPONGE_RATE {\n\t\tfor j := 0; j < SPONGE_RATE; j++ {\n\t\t\tif i+j < len(input) {\n\t\t\t\tstate[j] = input[i+j]\n\t\t\t}\n\t\t}\n", "\tfor start, end := 0, 0; start < len(input); start = end {\n\t\tend = start + SPONGE_RATE\n\t\tif end > len(input) {\n\t\t\tend = len(input)\n\t\t}\n\t\tfor pos := start; pos < end; pos++ {\n\t\t\tstate[pos-start] = input[pos]\n\t\t}\n"))
+m('R69-hint-quorem-helper', [], (B, "\tquotient := new(big.Int).Div(input, MODULUS)\n\tremainder := new(big.Int).Rem(input, MODULUS)\n\tresults[0] = quotient\n\tresults[1] = remainder\n", "\tresults[0], results[1] = quoRemModulus(input)\n"), (B, "// Computes the inverse of a field element x such that x * x^-1 = 1.\n", "func quoRemModulus(x *big.Int) (*big.Int, *big.Int) {\n\tquotient, remainder := new(big.Int), new(big.Int)\n\tquotient.QuoRem(x, MODULUS, remainder)\n\treturn quotient, remainder\n}\n\n// Computes the inverse of a field element x such that x * x^-1 = 1.\n"))
 
 if __name__ == '__main__':
     import json, sys
